@@ -53,8 +53,10 @@ def histories(cell, all_codes, depth):
 def main(p):
     a = p.args
     out = dict(histories=0, attempts=0, failures=[], nontrivial=[], nontrivial_total=0, outcomes={}, samples=[])
+    libs = {}
     try:
-        lib = probelib.Lib(a['package'])
+        for pk in sorted({c.get('package', a['package']) for c in a['cells']}):
+            libs[pk] = probelib.Lib(pk)
     except BaseException as e:
         out['import_error'] = probelib.exc_info(e)
         return out
@@ -125,7 +127,7 @@ def main(p):
     clients = {}
     for cell in a['cells']:
         if cell['service'] not in clients:
-            clients[cell['service']] = lib.sync(cell['service'], clock)
+            clients[cell['service']] = libs[cell.get('package', a['package'])].sync(cell['service'], clock)
         client, ch = clients[cell['service']]
         meth = getattr(client, cell['py'])
         for hist in histories(cell, a['all_codes'], a['depth']):
@@ -173,7 +175,7 @@ def main(p):
         aclients = {}
         for cell in a['cells']:
             if cell['service'] not in aclients:
-                aclients[cell['service']] = lib.aio(cell['service'], clock)
+                aclients[cell['service']] = libs[cell.get('package', a['package'])].aio(cell['service'], clock)
             client, ch = aclients[cell['service']]
             meth = getattr(client, cell['py'])
             for hist in histories(cell, a['all_codes'], a['depth']):
